@@ -2680,7 +2680,9 @@ class Matrix:
             params = tuple(REGEX_TRANSFORM_PARAMETER.findall(sub_element[1]))
             params = [mag + units for mag, units in params]
             if SVG_TRANSFORM_MATRIX == name:
-                params = map(float, params)
+                params = list(map(float, params))
+                if len(params) != 6:
+                    raise ValueError("matrix() requires six numbers")
                 self.pre_cat(*params)
             elif SVG_TRANSFORM_TRANSLATE == name:
                 try:
